@@ -14,7 +14,7 @@ pub mod sync {
 
     /// loom atomics (orderings are honoured by loom's memory model).
     pub mod atomic {
-        pub use loom::sync::atomic::{AtomicBool, AtomicU64, AtomicUsize, Ordering};
+        pub use loom::sync::atomic::{fence, AtomicBool, AtomicU64, AtomicUsize, Ordering};
     }
 
     /// `parking_lot::Mutex` API over `loom::sync::Mutex`.
